@@ -86,10 +86,11 @@ mod native {
                     let ls: Vec<usize> = (0..n).map(|i| lens[code / lens.len().pow(i as u32) % lens.len()]).collect();
                     let total: usize = ls.iter().sum();
                     if total == 0 { continue; }
-                    for single in [false, true] {
+                    for (single, flat) in [(false, false), (true, false), (false, true)] {
                         if single && n != 1 { continue; }
                         let base = fresh_dir("c03");
-                        let content: Vec<u8> = (0..total).map(|i| (i * 7 + 3) as u8).collect();
+                        // `flat`: every byte equal, so all full pieces are byte-identical and share ONE piece file (named by its hash)
+                        let content: Vec<u8> = (0..total).map(|i| if flat { 7u8 } else { (i * 7 + 3) as u8 }).collect();
                         // listed in REVERSE path order (z2, z1, z0): the offsets follow the listing, not the names
                         let files: Vec<(String, usize)> = ls.iter().enumerate().map(|(i, l)| (format!("z{}.bin", n - 1 - i), *l)).collect();
                         let m = Metainfo::from_bencode(&torrent_doc("t", pl, &content, &files, single)).expect("test torrent");
@@ -116,7 +117,7 @@ mod native {
                 }
             }
         }
-        assert!(layouts > 700, "only {} layouts", layouts);
+        assert!(layouts > 1400, "only {} layouts", layouts);
     }
 
     // C04, BOUNDED: hostile names / paths (parent components, absolute paths, backslashes, an existing parent directory): whatever
@@ -130,7 +131,9 @@ mod native {
             for multi in [true, false] {
                 let base_probe = format!("/verif/.cache/native-tmp/c04-{}", std::process::id());
                 let paths: Vec<String> = vec!["a".into(), "../e1".into(), "../../e2".into(), "d/../../e3".into(), format!("{}/abs_evil", base_probe),
-                                              "..\\..\\e4".into(), "./ok".into(), "d/f".into(), "../dl/../e5".into()];
+                                              "..\\..\\e4".into(), "./ok".into(), "d/f".into(), "../dl/../e5".into(),
+                                              // patterns that survive a naive "remove ../" / "strip leading /" / "count the depth" sanitiser
+                                              "....//e6".into(), "..././e7".into(), "/....//e8".into(), "./../e9".into(), "./../../e10".into(), "..//..//e11".into()];
                 for p in paths.iter() {
                     let base = fresh_dir("c04");
                     let content = vec![1u8, 2, 3, 4, 5, 6];
@@ -163,6 +166,6 @@ mod native {
                 }
             }
         }
-        assert!(cases == 72);   // x 2 lengths of the hostile entry each
+        assert!(cases == 120);   // x 2 lengths of the hostile entry each
     }
 }
